@@ -208,10 +208,10 @@ def lay(a, layout, perm=None):
     if layout == 'F':
         return np.array(a, order='F', copy=True)
     if layout == 'T':
-        return np.ascontiguousarray(a.T).T
+        return np.array(a.T, order='C', copy=True).T
     if layout == 'perm':
         perm = [int(i) for i in perm]
-        return np.ascontiguousarray(a.transpose(perm)).transpose([int(i) for i in np.argsort(perm)])
+        return np.array(a.transpose(perm), order='C', copy=True).transpose([int(i) for i in np.argsort(perm)])
     if layout == 'strided':
         big = np.zeros(tuple(2 * n for n in a.shape), dtype=a.dtype)
         v = big[tuple(slice(None, None, 2) for _ in a.shape)]
@@ -219,14 +219,16 @@ def lay(a, layout, perm=None):
         return v
     if layout == 'reversed':
         sl = tuple(slice(None, None, -1) for _ in a.shape)
-        return np.ascontiguousarray(a[sl])[sl]
+        return np.array(a[sl], order='C', copy=True)[sl]
     raise KeyError(layout)
 
 
 @st.composite
 def draw_layout(draw, ndim):
-    """(layout, perm or None); layouts that coincide with C for the rank are reported as C"""
-    l = draw(st.sampled_from(['C', 'C', 'F', 'T', 'T', 'perm', 'strided', 'reversed']))
+    """(layout, perm or None); layouts that coincide with C for the rank are reported as C; arrays of rank >= 2 get a
+    non-C layout most of the time (that is where the memory order can matter)"""
+    l = draw(st.sampled_from(['C', 'C', 'F', 'T', 'T', 'perm', 'strided', 'reversed'] if ndim < 2 else
+                             ['C', 'F', 'F', 'T', 'T', 'perm', 'strided', 'reversed']))
     if ndim < 1 or (ndim < 2 and l in ('F', 'T', 'perm')):
         return 'C', None
     if l == 'perm':
